@@ -325,13 +325,31 @@ pub fn decode(t: &mut Tape) -> Case {
             }
             // x86-style return: load the return address into a temporary in the same block
             if let Some(Term { term: Jmp::Return(e), .. }) = b.term.jmps.first_mut() {
-                if g.t.prob(128) {
+                let kind = g.t.below(8);
+                if kind < 4 {
                     let tv = tmp("$U1", 8);
                     let n = b.term.defs.len();
                     b.term.defs.push(load(instr_tid(bbase + 0x1e, 0), &tv, evar(&var("RSP", 8))));
                     b.term.defs.push(assign(instr_tid(bbase + 0x1e, 1), &var("RSP", 8), ebin(BinOpType::IntAdd, evar(&var("RSP", 8)), econst(8, 8))));
                     *e = evar(&tv);
                     let _ = n;
+                } else if kind == 4 {
+                    // ARM/PowerPC-style return through a computed temporary (`$U = LR & ~1; ...; RETURN $U`), with a later
+                    // definition of the register the temporary was computed from in the same instruction sequence
+                    let tv = tmp("$U2", 8);
+                    let r = reg_pool()[g.t.below(4)].clone();
+                    let c = *g.t.choose(&[0xffff_ffff_ffff_fffei128 as i128, 8, 0xffff_ffff_ffff_fffc_u64 as i128]);
+                    let op = if c == 8 { BinOpType::IntAdd } else { BinOpType::IntAnd };
+                    b.term.defs.push(assign(instr_tid(bbase + 0x1c, 0), &tv, ebin(op, evar(&r), econst(c, 8))));
+                    if g.t.prob(170) {
+                        if g.t.flag() {
+                            b.term.defs.push(load(instr_tid(bbase + 0x1c, 1), &r, evar(&var("RSP", 8))));
+                        } else {
+                            b.term.defs.push(assign(instr_tid(bbase + 0x1c, 1), &r, econst(0, 8)));
+                        }
+                    }
+                    *e = evar(&tv);
+                    g.feat("return-through-computed-temporary");
                 }
             }
             blocks.push(b);
